@@ -339,6 +339,42 @@ for splice in (True, False):
             except Exception:
                 nlive = -1
             samples.append({'useSplice': splice, 'stalled_clients_held': len(held_all), 'live_connections_reported': nlive})
+    # ---- any NUMBER of stalled clients: many clients stalled in the same state (queues, permits and pools that are
+    #      sized by a constant show only beyond that constant; the dispatcher queue holds 100)
+    if not wedged and (THOROUGH or splice):
+        MANY = 300 if THOROUGH else 130
+        reps = {}
+        for kind, param, opener in sts:
+            if kind.endswith('handshake') and kind not in reps and (isinstance(param, int) and param >= 1):
+                reps[kind] = (param, opener)
+        for kind, (param, opener) in reps.items():
+            crowd = []
+            try:
+                for i in range(MANY):
+                    crowd += opener()
+            except Exception as e:
+                for c in crowd:
+                    try: c.close()
+                    except OSError: pass
+                if any(v['known'] is None for v in chk.sigs.values()):
+                    chk.violation(f'stall.many.{kind}', 'listener-no-longer-serves-new-clients', f'after the violations above client {len(crowd)} of {MANY} cannot enter state {kind}/{param}: {e!r}', {'state': kind, 'k': param})
+                    break
+                machinery(f'cannot open {MANY} clients in state {kind}/{param}: {e!r}')
+            time.sleep(0.3)
+            nstates += 1
+            for name, fn in pr:
+                v, dt = run_probe(fn)
+                evals += 1
+                worst = max(worst, dt)
+                distinct.add(('many', kind, name))
+                if v:
+                    what = v.split(':')[0]
+                    chk.violation(f'stall.many.{kind}', f'{what}:{name}', f'useSplice={splice}: with {MANY} clients stalled in state {kind}/{param} (and {len(held_all)} in the other states), {name}: {v} after {dt:.1f}s', {'state': kind, 'k': param, 'probe': name, 'stalled': MANY})
+            for c in crowd:
+                try: c.close()
+                except OSError: pass
+            time.sleep(0.2)
+        samples.append({'many_stalled_in_one_state': MANY, 'states': list(reps)})
     if not px.alive():
         chk.violation('process', 'proxy-died', f'exit {px.returncode()}: {px.log()[-300:]}', {})
     for s in held_all:
@@ -633,6 +669,6 @@ if evals < 500 or len(distinct) < 100:
     machinery(f'vacuous: evals={evals} distinct={len(distinct)}')
 cov = {'evaluations': evals, 'states': nstates, 'distinct_nontrivial': len(distinct), 'transitions': evals, 'traces_validated_against_impl': evals,
        'worst_probe_latency_s': round(worst, 3), 'deadline_s': DEADLINE,
-       'rule': 'stalled states = client stopped after k bytes of the handshake (k = every offset in thorough, a stride + first/last in quick) for http, socks5, socks5+auth, socks4, socks4a, inside the TLS handshake and behind it for https / socks+tls; hanging auth command; request stuck on an upstream proxy that never replies / is mute (http, socks, TLS) entered via http and socks5; tunnel whose origin / client does not read (http, socks5, reverse); x useSplice true/false; each state alone and all together (3 probe rounds); plus a QUIC client whose handshake never completes (answers dropped by a one-way forwarder) with a new QUIC connection, an established one and the API probed; plus the proxy-initiated teardown (timeouts.idle = 2) of 32 tunnels whose peer stopped reading, probed for 7 s. probes = 7 API calls (live, status, history, metrics, rules GET, rules POST, logrotate) then a fresh echo round trip on http, https, socks5, socks5+tls, socks5+auth, socks4, reverse and the QUIC listener (through a second proxy), then live and rules again; every probe must answer within the deadline',
+       'rule': 'stalled states = client stopped after k bytes of the handshake (k = every offset in thorough, a stride + first/last in quick) for http, socks5, socks5+auth, socks4, socks4a, inside the TLS handshake and behind it for https / socks+tls; hanging auth command; request stuck on an upstream proxy that never replies / is mute (http, socks, TLS) entered via http and socks5; tunnel whose origin / client does not read (http, socks5, reverse); x useSplice true/false; each state alone and all together (3 probe rounds); then 130 (thorough 300) clients stalled in the same handshake state, per handshake kind (the dispatcher queue holds 100); plus a QUIC client whose handshake never completes (answers dropped by a one-way forwarder) with a new QUIC connection, an established one and the API probed; plus the proxy-initiated teardown (timeouts.idle = 2) of 32 tunnels whose peer stopped reading, probed for 7 s. probes = 7 API calls (live, status, history, metrics, rules GET, rules POST, logrotate) then a fresh echo round trip on http, https, socks5, socks5+tls, socks5+auth, socks4, reverse and the QUIC listener (through a second proxy), then live and rules again; every probe must answer within the deadline',
        'schedule_control': 'kernel', 'samples': samples}
 sys.exit(chk.finish('model_checking', cov, ['E4 part: real loopback sockets, kernel scheduling uncontrolled; deadlines are 3 s against millisecond expectations; TPROXY and UDP sessions are not stalled; a QUIC client stalled inside its own handshake is not built (QUIC is probed as a fresh connection only)']))
